@@ -160,10 +160,13 @@ def boot (files written delivered : List Nat) (initial : List Nat := []) (finish
 
 /-- a new `Store` running `LoadCheckpoint` with `SavepointURI` set to the savepoint of checkpoint `id`, on a
 storage holding the job snapshot files `files`: the savepoint becomes the current checkpoint; the id counter
-continues after the savepoint's id and after the newest local snapshot file (D49 repair) -/
+continues after the savepoint's id, after the newest local snapshot file (D49 repair) and after the newest existing
+savepoint artifact (D66 repair) -/
 def bootSavepoint (id : Nat) (files written delivered : List Nat) (initial : List Nat := [])
-    (finished : List Store.Snap := []) : Sys :=
-  { store := Store.loadFromSavepoint id (maxL files),
+    (finished : List Store.Snap := []) (spIds : List Nat := []) : Sys :=
+  -- `spIds`: the checkpoint ids of the savepoint artifacts (`<segment>/job.savepoint`) in that storage; their ids are
+  -- not handed out again either (D66 repair). The whole-system model has no artifact step and passes none.
+  { store := Store.loadFromSavepoint id (max (maxL files) (maxL spIds)),
     pub := { files, completed := [id], inflight := [], removes := [], notifs := [], written, delivered,
              initial, finished } }
 
